@@ -223,6 +223,11 @@ class GeoIndex:
             raise ValueError("lat and lon must be numpy.ndarray objects (no "
                              "pandas.Series or xarray.DataArray)!")
 
+        # The trees store float64 anyway; converting float32 positions only
+        # afterwards costs a metre on coordinates of the Earth's size.
+        lat = np.asarray(lat, dtype=np.float64)
+        lon = np.asarray(lon, dtype=np.float64)
+
         if self.metric == "minkowski":
             return np.column_stack(
                 geocentric2cart(earth_radius, lat, lon)
